@@ -1,12 +1,12 @@
 SPECIFICATION Spec
 CONSTANTS
-  Scheds <- SchedsBig
-  Blocking = {2}
-  Panicking = {}
-  MaxNow = 7
-  MaxStep = 3
+  Scheds <- SchedsChain
+  Blocking = {}
+  Panicking = {1}
+  MaxNow = 4
+  MaxStep = 2
   MaxOps = 4
-  Chain = "none"
+  Chain = "recover+delay"
   Variant = "ok"
 INVARIANTS Accepted ViewsAgree WaitGroupSane
 CHECK_DEADLOCK FALSE
